@@ -4,6 +4,7 @@ CONSTANTS NObjMax = 6
  NGnd = 1
  HasGround = TRUE
  MaxTag = 2
+ MaxCurves = 0
 INIT Init
 NEXT Next
 INVARIANT CountFormula
